@@ -507,6 +507,10 @@ func (aof *AppendableFile) readAt(bs []byte, off int64) (n int, err error) {
 			fbs = bs[:aof.fileOffset-off]
 		}
 		n, err = aof.f.ReadAt(fbs, aof.fileBaseOffset+off)
+		if err != nil {
+			// the flushed part of the log could not be read completely: buffered bytes must not be served in its place
+			return n, err
+		}
 	} else {
 		boff = int(off - aof.fileOffset)
 	}
